@@ -182,6 +182,7 @@ func round6(w *World, r *Report) {
 		r.withRule("R16.13", func() { ruleC09MeterArray(w, r) })
 		r.Explanation += " R16.12 only values that came out of a pool go back into it (indices stay inside the array the pool was sized for; C15 R15.1); R16.13 a meter entry is written to the array its cell index belongs to (C09 R09.9);"
 	case "C01":
+		ruleHelperLoopNeedsItsSocket(w, r, "C01", "R01.8")
 		ruleNilResultChecked(w, r, "R01.1.NILRES", receivePathFuncs(w, "C01"))
 		r.withOnly("R01.2.UNLOCK", onlyRule("R11.2"), func() { ruleC11(w, r) })
 		funcs := receivePathFuncs(w, "C01")
@@ -195,6 +196,8 @@ func round6(w *World, r *Report) {
 		ruleOneSessionQerLabel(w, r, "C09", "R09.14")
 		r.Explanation += " R09.13 the stored PDR shares its QER ID list with the PDR that is programmed (MarkSessionQer re-orders in place); R09.14 the session label is written once, outside the search loop;"
 	case "C17":
+		ruleExpansionOnlyRead(w, r, "C17", "R17.17")
+		ruleEveryRuleOfTheExpansionProcessed(w, r, "C17", "R17.18")
 		ruleTranslatorBytes(w, r, "C17", "R17.16")
 		ruleOwnReferenceDroppedFirst(w, r, "C17", "R17.14")
 		ruleWidthLimitIsExclusiveOf100(w, r, "C17", "R17.15")
@@ -204,6 +207,30 @@ func round6(w *World, r *Report) {
 		ruleEveryPeerParsed(w, r, "C18", "R18.10")
 		r.Explanation += " R18.9 every path of removeComments returns the pattern's ReplaceAll of the input; R18.10 the peer parsed in validateConf's loop is the element of the iteration;"
 	case "C19":
+		{
+			// R19.10: the handler cannot panic on a well-formed document (net/http recovers the panic and drops
+			// the connection: no response at all): index / nil / assertion obligations over the handler's tree
+			roots := []*ssa.Function{w.Fn("C19", "pfcpiface.(*ConfigHandler).ServeHTTP")}
+			fs := map[*ssa.Function]bool{}
+			for f := range w.CG().Reachable(roots, func(e *Edge) bool { return e.Kind != "go" }) {
+				if w.isRepoFunc(f) && f.Pkg != nil && f.Pkg.Pkg.Path() == pfcpPkg {
+					if rt := ""; f.Signature.Recv() != nil {
+						rt = rootTypeName(f.Signature.Recv().Type())
+						if rt == "UP4" || rt == "bess" || rt == "P4rtClient" || rt == "P4rtTranslator" {
+							continue // the datapath plug-ins' own obligations are C11 R11.15 / C16
+						}
+					}
+					fs[f] = true
+				}
+			}
+			eng := newEngine(w, r, "R19.10", fs)
+			for _, f := range sortedFuncs(w, fs) {
+				eng.idx(f)
+				eng.taObls(f)
+				eng.divObls(f)
+			}
+			r.floor("R19.10 functions of the REST handler", len(fs), 3)
+		}
 		ruleNoRelock(w, r, "R19.9")
 		ruleSliceMeterJoinCount(w, r, "C19", "R19.8")
 		r.Explanation += " R19.8 every caller of addSliceMeter joins as many completions as it starts workers;"
@@ -1998,4 +2025,157 @@ func ruleEveryFarRegistersItsPeer(w *World, r *Report, prop, rule string) {
 		pos = w.Pos(posNear(miss))
 	}
 	r.check(n > 0 && miss == nil, rule, w.FuncName(f), "every tunnelled downlink FAR is registered with its tunnel peer", pos, "the FAR's own fields alone decide", ifelse(n == 0, "the loop no longer tests the FAR's TEID", "a FAR that forwards to the access side with a TEID can be skipped (a further condition, e.g. 'this base station was already written for this request'): it never becomes a user of the peer, and removing the FAR that did register deletes the peer entry and frees its ID while this FAR still points to it"))
+}
+
+// ruleHelperLoopNeedsItsSocket: the datapath helper goroutines (end-marker sender, notification listener) use a
+// socket field of the plug-in; they are started only when the dial that fills that field succeeded.
+func ruleHelperLoopNeedsItsSocket(w *World, r *Report, prop, rule string) {
+	f := w.Fn(prop, "pfcpiface.(*bess).SetUpfInfo")
+	n := 0
+	for _, g := range withClosures(f) {
+		g := g
+		allInstrs(g, func(i ssa.Instruction) {
+			gs, ok := i.(*ssa.Go)
+			if !ok {
+				return
+			}
+			tgt := staticCallee(gs)
+			if tgt == nil {
+				return
+			}
+			// socket fields the target reads
+			fields := map[string]bool{}
+			for _, h := range withClosures(tgt) {
+				allInstrs(h, func(j ssa.Instruction) {
+					if fa, ok := j.(*ssa.FieldAddr); ok && fieldVar(fa) != nil && strings.Contains(typeName(fieldVar(fa).Type()), "net.Conn") {
+						fields[fieldVar(fa).Name()] = true
+					}
+				})
+			}
+			if len(fields) == 0 {
+				return
+			}
+			// the dial(s) that fill those fields
+			allInstrs(g, func(j ssa.Instruction) {
+				c, ok := j.(*ssa.Call)
+				if !ok || staticCallee(c) == nil || staticCallee(c).Name() != "Dial" {
+					return
+				}
+				conn := extractOf(c, 0)
+				fills := false
+				if conn != nil && conn.Referrers() != nil {
+					for _, ref := range *conn.Referrers() {
+						if st, ok := ref.(*ssa.Store); ok {
+							if fa, ok := st.Addr.(*ssa.FieldAddr); ok && fieldVar(fa) != nil && fields[fieldVar(fa).Name()] {
+								fills = true
+							}
+						}
+					}
+				}
+				if !fills {
+					return
+				}
+				n++
+				e := errResult(c)
+				ok = e != nil && errGuarded(g, c, e, func(k ssa.Instruction) bool { return k == ssa.Instruction(gs) })
+				r.check(ok, rule, w.FuncName(g), tgt.Name()+" is started only when its socket could be opened", w.Pos(gs.Pos()), "go statement unreachable unless the dial's err == nil", "go "+tgt.Name()+" is reachable after a failed dial of the socket it uses: the field is nil, the first packet the goroutine handles (an End Marker of an SNDEM update / a notification) dereferences it and the agent dies")
+			})
+		})
+	}
+	r.floor(rule+" helper goroutines with a socket", n, 2)
+}
+
+// ruleExpansionOnlyRead: what CreatePortRangeCartesianProduct returned is installed (or deleted) as it is: the
+// worker neither stores into the list nor appends to a prefix of it (which overwrites the list in place).
+func ruleExpansionOnlyRead(w *World, r *Report, prop, rule string) {
+	n := 0
+	for f := range w.allFuncs() {
+		if !w.isRepoFunc(f) || strings.HasPrefix(w.FuncName(f), "test/") {
+			continue
+		}
+		f := f
+		allInstrs(f, func(i ssa.Instruction) {
+			c, ok := i.(*ssa.Call)
+			if !ok || staticCallee(c) == nil || staticCallee(c).Name() != "CreatePortRangeCartesianProduct" {
+				return
+			}
+			v := extractOf(c, 0)
+			if v == nil || v.Referrers() == nil {
+				return
+			}
+			n++
+			var bad ssa.Instruction
+			var follow func(x ssa.Value, d int)
+			seen := map[ssa.Value]bool{}
+			follow = func(x ssa.Value, d int) {
+				if x == nil || d > 4 || seen[x] || x.Referrers() == nil {
+					return
+				}
+				seen[x] = true
+				for _, ref := range *x.Referrers() {
+					switch u := ref.(type) {
+					case *ssa.Slice:
+						if u.Referrers() != nil {
+							for _, r2 := range *u.Referrers() {
+								if ap, ok := r2.(*ssa.Call); ok && calleeName(ap) == "builtin.append" && len(ap.Call.Args) > 0 && ap.Call.Args[0] == ssa.Value(u) {
+									bad = ap
+								}
+							}
+						}
+					case *ssa.IndexAddr:
+						if u.X == x && u.Referrers() != nil {
+							for _, r2 := range *u.Referrers() {
+								if st, ok := r2.(*ssa.Store); ok && st.Addr == ssa.Value(u) {
+									bad = st
+								}
+							}
+						}
+					case *ssa.Phi:
+						follow(u, d+1)
+					}
+				}
+			}
+			follow(v, 0)
+			pos := w.Pos(c.Pos())
+			if bad != nil {
+				pos = w.Pos(bad.Pos())
+			}
+			r.check(bad == nil, rule, w.FuncName(f), "the expansion is installed as it was computed", pos, "only read", "the list of rules is written to after it was computed (an append to a prefix of it — e.g. to abbreviate it for a log line — moves its tail over its middle): ports of the range are lost and others written twice")
+		})
+	}
+	r.floor(rule+" consumers of the expansion", n, 2)
+}
+
+// ruleEveryRuleOfTheExpansionProcessed: the loop that writes (deletes) the rules of an expansion goes on to the
+// next rule after each processPDR; it ends early only on a marshalling error.
+func ruleEveryRuleOfTheExpansionProcessed(w *World, r *Report, prop, rule string) {
+	n := 0
+	for _, name := range []string{"pfcpiface.(*bess).addPDR", "pfcpiface.(*bess).delPDR"} {
+		for _, g := range withClosures(w.Fn(prop, name)) {
+			for _, c := range callsIn(g, func(c ssa.CallInstruction) bool { return callNamed("processPDR")(c.(ssa.Instruction)) }) {
+				ins := c.(ssa.Instruction)
+				// innermost loop header of the call
+				var hdr *ssa.BasicBlock
+				for _, h := range g.Blocks {
+					if h.Dominates(ins.Block()) && inCycle(h, ins.Block()) && len(h.Preds) >= 2 {
+						if hdr == nil || hdr.Dominates(h) {
+							hdr = h
+						}
+					}
+				}
+				if hdr == nil {
+					continue
+				}
+				n++
+				loop := naturalLoop(hdr)
+				out := reach(g, ins, func(j ssa.Instruction) bool { return !loop[j.Block()] }, nil, func(a, b *ssa.BasicBlock) bool { return b == hdr })
+				pos := w.Pos(ins.Pos())
+				if out != nil {
+					pos = w.Pos(posNear(out))
+				}
+				r.check(out == nil, rule, w.FuncName(g), "after a rule of the expansion was processed the loop goes on to the next", pos, "no exit between processPDR and the loop header", "the loop can be left after processPDR (e.g. when the first delete failed 'because the PDR is gone'): the remaining rules of the expansion are never written / deleted — entries that overlap another PDR's range make exactly that first delete fail while the rest is still installed")
+			}
+		}
+	}
+	r.floor(rule+" processPDR calls in a loop", n, 2)
 }
